@@ -973,3 +973,44 @@ func VH_C15_drawpath_dashes_Q() {
 		vAssert("C15.dashes.kept_pattern_equivalent", vhOnPattern(st.DashOffset*w, sd, x) == want)
 	}
 }
+
+// H3e several paths in one DrawPath call: the solid/nothing/dashed decision of one path must not
+// leak into the next one.  A short line that lies in a gap of the pattern (no stroke) followed by a
+// long line (dashed), and the other way round; offset symbolic inside the gap.
+func VH_C15_drawpath_dashes_two_Q() {
+	vStub("math.Mod", vhModBounded)
+	vStub("math.Hypot", vhHypotQ)
+	off := vNondetDyadic(6, 2)
+	vAssume(4.25 <= off && off <= 6) // pattern 4 on, 4 off: the path starts inside the gap
+	rec := &vhC15Rec{w: 100, h: 100}
+	c := NewContext(rec)
+	c.SetFillColor(Transparent)
+	c.SetStrokeColor(Black)
+	c.SetStrokeWidth(1)
+	c.SetDashes(off, 4, 4)
+	short := &Path{}
+	short.d = []float64{MoveToCmd, 0, 0, MoveToCmd, LineToCmd, 1, 0, LineToCmd} // ends before the gap ends (off+1 <= 8 needs off <= 7)
+	long := &Path{}
+	long.d = []float64{MoveToCmd, 0, 5, MoveToCmd, LineToCmd, 30, 5, LineToCmd}
+	if vChoose(0, 1) == 0 {
+		c.DrawPath(0, 0, short, long)
+		// only the long one is drawn (a draw without fill and stroke is dropped) or the short one
+		// arrives without stroke
+		var longCall *vhC15Call
+		for i := range rec.calls {
+			if rec.calls[i].path == long {
+				longCall = &rec.calls[i]
+			}
+		}
+		vAssert("C15.dashes.two.long_path_still_stroked", longCall != nil && longCall.style.HasStroke() && len(longCall.dashes) == 2)
+	} else {
+		c.DrawPath(0, 0, long, short)
+		ok := len(rec.calls) >= 1 && rec.calls[0].path == long && rec.calls[0].style.HasStroke() && len(rec.calls[0].dashes) == 2
+		for i := range rec.calls {
+			if rec.calls[i].path == short {
+				ok = ok && !rec.calls[i].style.HasStroke()
+			}
+		}
+		vAssert("C15.dashes.two.each_path_its_own_decision", ok)
+	}
+}
